@@ -16,7 +16,8 @@ EXTENDS BodyFilter
 CONSTANTS Cases,        \* [doc, fs, enc]   enc in {"gzip", "deflate", "br", "zstd", "none"}
           MaxChunks
 
-Supported == {"gzip", "deflate", "br"}
+\* content-coding names are case-insensitive: "GZIP" and "Br" declare gzip and br
+Supported == {"gzip", "deflate", "br", "GZIP", "Br"}
 
 VARIABLES cs, arrived, dlag, stages, elag, out, nch, done, dev, surf
 vars == <<cs, arrived, dlag, stages, elag, out, nch, done, dev, surf>>
